@@ -206,6 +206,16 @@ func (f *FuncVC) intBinop(st *State, op token.Token, x, y *Val, ty types.Type) *
 				if bs := f.byteDecomp(x); bs != nil && int(k/8) < len(bs) {
 					// x = sum b[i]*256^i  =>  x>>8j = sum_{i>=j} b[i]*256^(i-j): linear
 					rest := bs[k/8:]
+					if xlo == nil || xlo.Sign() < 0 {
+						// arithmetic shift of a signed value: the value stays a
+						// division, its two's complement bytes are the upper bytes
+						r := &Val{K: KInt, Ty: ty, T: "(div " + x.T + " " + pow2(k).String() + ")", Bytes: rest}
+						if xlo != nil && xhi != nil {
+							r.Lo = new(big.Int).Rsh(xlo, k)
+							r.Hi = new(big.Int).Rsh(xhi, k)
+						}
+						return r
+					}
 					r := &Val{K: KInt, Ty: ty, T: byteSum(rest), Bytes: rest, Lo: big.NewInt(0)}
 					r.Hi = new(big.Int).Sub(pow2(uint(8*len(rest))), big.NewInt(1))
 					if xhi != nil && new(big.Int).Rsh(xhi, k).Cmp(r.Hi) < 0 {
@@ -312,7 +322,7 @@ func (f *FuncVC) byteDecomp(x *Val) []string {
 		return nil
 	}
 	lo, hi := bounds(x)
-	if lo == nil || hi == nil || lo.Sign() < 0 || hi.BitLen() > 64 || hi.BitLen() <= 8 {
+	if lo == nil || hi == nil {
 		return nil
 	}
 	if f.decomps == nil {
@@ -321,7 +331,32 @@ func (f *FuncVC) byteDecomp(x *Val) []string {
 	if bs, ok := f.decomps[x.T]; ok {
 		return bs
 	}
-	n := (hi.BitLen() + 7) / 8
+	var n int
+	u := x.T
+	guard := "true"
+	if lo.Sign() < 0 {
+		// signed: the bytes of the two's complement representation in the
+		// width of the value's type, i.e. of x mod 2^(8n)
+		b := basicOf(x.Ty)
+		if b == nil {
+			return nil
+		}
+		tlo, thi, ok := intRange(b)
+		if !ok || tlo.Sign() >= 0 || lo.Cmp(tlo) < 0 || hi.Cmp(thi) > 0 {
+			return nil
+		}
+		n = (thi.BitLen() + 1) / 8
+		if n < 2 || n > 8 {
+			return nil
+		}
+		u = "(mod " + x.T + " " + pow2(uint(8*n)).String() + ")"
+	} else {
+		if hi.BitLen() > 64 || hi.BitLen() <= 8 {
+			return nil
+		}
+		n = (hi.BitLen() + 7) / 8
+		guard = and(cmp("<=", "0", x.T), cmp("<", x.T, pow2(uint(8*n)).String()))
+	}
 	var bs []string
 	for i := 0; i < n; i++ {
 		b := f.sc.fresh("byte")
@@ -329,7 +364,7 @@ func (f *FuncVC) byteDecomp(x *Val) []string {
 		f.sc.assert(and(cmp("<=", "0", b), cmp("<=", b, "255")))
 		bs = append(bs, b)
 	}
-	f.sc.assert(implies(and(cmp("<=", "0", x.T), cmp("<", x.T, pow2(uint(8*n)).String())), eq(x.T, byteSum(bs))))
+	f.sc.assert(implies(guard, eq(u, byteSum(bs))))
 	f.decomps[x.T] = bs
 	return bs
 }
